@@ -194,6 +194,12 @@ def check_sub(cell, case, ctx):
         if any(not obs.finite(x) for x in ref_cart):
             ctx.exclude("nonfinite_reference")
             return
+        if not mp_ and len(k1[1]) >= 2 and k1[1][1] in ("theta", "eta") and \
+                R.rho2(ref_cart) < (mpf("1e-3") * R.scale_of(a, b, ref_cart)) ** 2:
+            # float64: a result that cancelled onto the z axis cannot carry z in theta / eta storage (z = rho / tan(theta) has
+            # condition number ~ |z| / rho there) - the same rule as in C02; the 60-digit tier keeps such results
+            ctx.exclude("ill_conditioned_result")
+            return
         scale = R.scale_of(a, b, ref_cart)
         if len(k1[3]) != len(ref_cart):
             ctx.fail("dimension", f"{op.name}{variant}: result has {len(k1[3])} components, Cartesian signature gives "
